@@ -77,6 +77,128 @@ type Pq$ struct {
 	du$ := 3
 	dv$ := - -du$
 	fmt.Println("dum", dv$, 4 - -du$, - - -du$)`},
+	// ---- init clauses in every position that takes one: the initializer calls a
+	// function that prints a marker, and its name also exists in the enclosing scope,
+	// so dropping or moving the init changes the output.
+	{Name: "init-clause-first-if", Decl: `
+func mark$(tag string, v int) int {
+	fmt.Println("init", tag, v)
+
+	return v
+}
+`, Body: `
+	v$ := 1
+	if v$ := mark$("if", 20); v$ > 10 {
+		fmt.Println("then", v$)
+	} else {
+		fmt.Println("else", v$)
+	}
+	fmt.Println("outer", v$)`},
+	{Name: "init-clause-else-if-2-arms", Decl: `
+func mark$(tag string, v int) int {
+	fmt.Println("init", tag, v)
+
+	return v
+}
+`, Body: `
+	w$ := 1
+	if w$ > 5 {
+		fmt.Println("a0")
+	} else if w$ := mark$("e1", 30); w$ > 10 {
+		fmt.Println("a1", w$)
+	} else {
+		fmt.Println("else", w$)
+	}
+	fmt.Println("outer", w$)`},
+	{Name: "init-clause-else-if-4-arms", Decl: `
+func mark$(tag string, v int) int {
+	fmt.Println("init", tag, v)
+
+	return v
+}
+`, Body: `
+	w$ := 1
+	if w$ := mark$("e0", 2); w$ > 5 {
+		fmt.Println("a0")
+	} else if w$ := mark$("e1", 3); w$ > 10 {
+		fmt.Println("a1", w$)
+	} else if w$ := mark$("e2", 7); w$ > 10 {
+		fmt.Println("a2", w$)
+	} else if w$ := mark$("e3", 40); w$ > 10 {
+		fmt.Println("a3", w$)
+	} else if w$ := mark$("e4", 50); w$ > 10 {
+		fmt.Println("a4", w$)
+	} else {
+		fmt.Println("else", w$)
+	}
+	fmt.Println("outer", w$)`},
+	{Name: "init-clause-else-if-falls-to-else", Decl: `
+func mark$(tag string, v int) int {
+	fmt.Println("init", tag, v)
+
+	return v
+}
+`, Body: `
+	u$ := 99
+	if u$ < 0 {
+		fmt.Println("neg")
+	} else if u$ := mark$("f1", 1); u$ > 10 {
+		fmt.Println("b1", u$)
+	} else if u$ := mark$("f2", 2); u$ > 10 {
+		fmt.Println("b2", u$)
+	} else {
+		fmt.Println("else sees outer", u$)
+	}`},
+	{Name: "init-clause-switch-tag", Decl: `
+func mark$(tag string, v int) int {
+	fmt.Println("init", tag, v)
+
+	return v
+}
+`, Body: `
+	s$ := 9
+	switch s$ := mark$("sw", 2); s$ {
+	case 2:
+		fmt.Println("two", s$)
+	case 9:
+		fmt.Println("nine", s$)
+	default:
+		fmt.Println("dflt", s$)
+	}
+	fmt.Println("outer", s$)`},
+	{Name: "init-clause-for-three", Decl: `
+func mark$(tag string, v int) int {
+	fmt.Println("init", tag, v)
+
+	return v
+}
+`, Body: `
+	i$ := 100
+	for i$ := mark$("for", 0); i$ < mark$("cond", 2); i$++ {
+		fmt.Println("body", i$)
+	}
+	fmt.Println("outer", i$)`},
+	// ---- statement kinds of print_stmt.go not exercised elsewhere
+	{Name: "stmt-kinds-misc", Body: `
+	try {
+		throw "thrown$"
+	} catch (e$) {
+		fmt.Println("caught", e$)
+	}
+	try {
+		panic("pan$")
+	} catch (e$) {
+		fmt.Println("caught", e$)
+	}
+	print "two", "args"
+	sc$ := make(chan, 1)
+	sc$ <- "sent"
+	fmt.Println(<-sc$)
+	@assert 1 + 1 == 2`},
+	{Name: "import-alias-decl", Decl: `
+import str$ "strings"
+`, Body: `
+	fmt.Println("ia", str$.ToUpper("x"))`},
 	{Name: "for-range-variable", Body: `
 	xs$ := []string{"a", "b", "c"}
 	for i$, s$ := range xs$ {
